@@ -55,6 +55,8 @@ def plan(tier):
     p.append((scn_, 1 if q else 2, 1))
     # every pair of run settings on a setup + leaf selection
     p += S.settings_pairs(lambda **kw: S.T1(shared=S.VM1_CHAIN[:2], D=(1.0, 15.0), **kw), tier)
+    # an explicit concurrency limit above the retry budget
+    p.append((S.T1(shared=S.VM1_CHAIN[:2], params={"max_concurrent_tries": 2}).variant("/shared=install+customize,mct=2,mt=1"), 1, 0.3))
     # configuration matrix: worker kinds x reuse scopes x slot bindings (same selection, default schedule and single deviations)
     p += S.config_matrix(S.T2, tier)
     p += [(scn.variant(",mt=2"), k, w) for scn, k, w in S.config_matrix(S.T2, tier, k_quick=0, k_thorough=1, extra_params={"max_tries": 2})]
